@@ -5,8 +5,8 @@ EXTENDS MC_Router
 
 GoodU == {"/u/{id}", "/u/{id:\\d+}", "/u/{id:digit}/x", "/p/{-id}/{p}", "/lit", "/w/{id:word}-{p:\\d*}", "/lit/", "/u/{id}/", "/n/{id:\\d+|new}", "/u/{id}/z"}
 BadU  == {"/u/{}", "/u/{a}{b}", "/u/{id}/{id}", "/u/{id:[}", "/u/{:\\d+}", "/u/{id}/{-id}", "/u/{-id}/{id:\\d+}", "/u/{id:\\d+}{p}", "/u/{id:digit}{p}"}
-\* params maps: id absent or one of 7 values, p absent or one of 4, an extra key absent or present
-ValsId == {"5", "abc5", "5/6", "", "x y", "new", "brandnew"}
+\* params maps: id absent or one of 8 values, p absent or one of 4, an extra key absent or present
+ValsId == {"5", "abc5", "5/6", "", "x y", "new", "brandnew", "{p}"}   \* "{p}": a value that reads like a later token (substitution is one pass over the PATTERN)
 ValsP  == {"5", "abc5", "", "x y"}
 Opt(k, V) == {<<>>} \cup {(k :> v) : v \in V}
 MapsU == {a @@ b @@ c : a \in Opt("id", ValsId), b \in Opt("p", ValsP), c \in Opt("extra", {"1"})}
